@@ -214,7 +214,10 @@ Record edescription := {
   ed_get_hash_cached : bool;                           (* get_hash: compute once, cache in _hash *)
   ed_getstate : list (bytes * list (bytes * bytes));   (* class -> (state key, value expression) *)
   ed_setstate : list (bytes * list (bytes * bytes));   (* class -> (attribute, value expression) *)
-  ed_pending_key : bytes                               (* key expression of Scheduler._pending_expr[parent_job] *)
+  ed_pending_key : bytes;                              (* key expression of Scheduler._pending_expr[parent_job] *)
+  ed_fields_fixed_after_construction : bool            (* no site outside __init__/__setstate__ writes, mutates or
+                                                          aliases an expression's _options / _export_options: the
+                                                          record [expr] is a value, [cache_ok] is preserved *)
 }.
 
 Definition scheduler_branches (v : variant) : list (guard * bytes * list efield) :=
@@ -265,7 +268,8 @@ Definition describe_expr (v : variant) : edescription := {|
      (b "SimpleExpression", (b "self.func_name", b "state['func_name']") :: apply_setstate);
      (b "ValueExpression",
       [(b "self.value", b "registry.deserialize(state['value_type'], state['value'])")])];
-  ed_pending_key := b "expr.get_hash()"
+  ed_pending_key := b "expr.get_hash()";
+  ed_fields_fixed_after_construction := true
 |}.
 
 (** * Glue for the correspondence run *)
